@@ -365,6 +365,7 @@ class Run:
         self.errors = []
         self.expected_exc = 0             # calls ended by the injected transport failure
         self.writes_since_pop = {}
+        self.popped = {}
         self.cur_id = {}
         self.cur_call = {}                # logical thread -> id of the message its current call sends
         self.counts = {}                  # logical thread -> {kind: actions of that kind in the current call}
@@ -440,6 +441,7 @@ class Run:
             tok = "a%d:%s" % (lt, detail[0])
         elif kind == "p":
             self.writes_since_pop[lt] = 0
+            self.popped[lt] = detail[0]
             self.cur_id[lt] = None
             self.hand = [detail[0], 0]
             tok = "p%d:%s" % (lt, detail[0])
@@ -503,10 +505,10 @@ class Run:
         lt = self.lt()
         k = self.writes_since_pop.get(lt, 0)
         if k == 0:
-            mid = "?"
-            for i, data in self.expected.items():
-                if self.pieces(data)[0] == chunk:
-                    mid = i
+            cands = [i for i, data in self.expected.items() if self.pieces(data)[0] == chunk]
+            # several messages can start with the same chunk (e.g. a header written on its own): the one this
+            # thread popped decides; the following chunks and the parsed wire are still checked against it
+            mid = self.popped.get(lt) if self.popped.get(lt) in cands else (cands[-1] if cands else "?")
             self.cur_id[lt] = mid
         else:
             mid = self.cur_id.get(lt)
